@@ -51,10 +51,6 @@ func sameTree(a, b dhcpv6.DHCPv6) string {
 	if p == "" {
 		return ""
 	}
-	// the same message in another representation (a generic option where the other holds the typed one)
-	if bytes.Equal(a.ToBytes(), b.ToBytes()) {
-		return ""
-	}
 	return p + ": " + w
 }
 
